@@ -18,12 +18,13 @@ func defFor(check string) *checkDef {
 	switch check {
 	case "selftest":
 		return &checkDef{property: "selftest", selftest: true, budget: map[string]tierCfg{"quick": {120, 300}, "thorough": {400, 1200}}}
-	case "C01":
+	case "C01", "C01dup":
 		return &checkDef{property: "C01", level: "exploration",
-			budget: map[string]tierCfg{"quick": {3000, 60}, "thorough": {150000, 1500}},
-			rule: "one simulated run per seed: swarm configuration, generated history of batches (insert/update/delete, empty and delete-only batches, ids re-used) from one client, every background step scheduled from the tape; after every window with a changed root a fresh Reader is read completely and compared document by document with the abstract index. distinct = distinct release sequences (hash of actor:gate per window); non-trivial = at least one background step (persister/merger/introducer release) was interleaved between two client operations",
+			variants: []string{"C01", "C01", "C01", "C01", "C01", "C01", "C01", "C01dup"},
+			budget:   map[string]tierCfg{"quick": {3000, 60}, "thorough": {150000, 1500}},
+			rule: "one simulated run per seed: swarm configuration, generated history of batches (insert/update/delete, empty and delete-only batches, ids re-used) from one client, every background step scheduled from the tape; after every window with a changed root a fresh Reader is read completely and compared document by document with the abstract index. distinct = distinct release sequences (hash of actor:gate per window); non-trivial = at least one background step (persister/merger/introducer release) was interleaved between two client operations. Every eighth run is the dedicated probe that issues one batch naming the same id in two Update operations (never generated elsewhere): the listed known finding",
 			assume: commonAssume,
-			probes: []string{"introducer-recompute-obsoletes", "file-merge", "in-memory-merge", "merge-3plus-inputs", "nap-timer-fired"}}
+			probes: []string{"introducer-recompute-obsoletes", "file-merge", "in-memory-merge", "merge-3plus-inputs", "nap-timer-fired", "dup-id-batches"}}
 	case "C02":
 		return &checkDef{property: "C02", level: "fault_enumeration", timeout: 600 * time.Second,
 			budget: map[string]tierCfg{"quick": {400, 80}, "thorough": {20000, 1800}},
